@@ -10,13 +10,13 @@ ALL_SEQ_OPS = {"ctopic", "gtopic", "dtopic", "ltopics", "ltsubs", "csub", "gsub"
 
 # property -> configuration.  seq: (profile, quick cases, thorough cases, max history length)
 PROPS = {
-    "C01": dict(module="Deltio.Props.C01", p1=True, p6=True, no_oracle={"namerace"}, conc=[("mix", 120, 5000), ("cancel", 60, 2000), ("namerace", 200, 5000)], trace_kinds={"post", "publish", "publish.fanout", "pull", "ack", "modify", "expire", "end"}, seq=[("general", 150, 6000, 40), ("data", 150, 6000, 50)], pure=[],
+    "C01": dict(module="Deltio.Props.C01", p1=True, p6=True, no_oracle={"namerace"}, conc=[("mix", 120, 5000), ("cancel", 60, 2000), ("namerace", 200, 5000), ("bigpub", 10, 150)], trace_kinds={"post", "publish", "publish.fanout", "pull", "ack", "modify", "expire", "end"}, seq=[("general", 150, 6000, 40), ("data", 150, 6000, 50)], pure=[],
                 relevant={"pub", "pull", "sread", "stats", "sopen"}),
-    "C02": dict(module="Deltio.Props.C02", conc=[("mix", 120, 5000)], trace_kinds={"ack"}, seq=[("data", 250, 10000, 50)], pure=["tracker", "ackids"],
+    "C02": dict(module="Deltio.Props.C02", conc=[("mix", 120, 5000), ("abandonpull", 80, 2000)], trace_kinds={"ack"}, seq=[("data", 250, 10000, 50)], pure=["tracker", "ackids"],
                 relevant={"ack", "ssend", "pull", "sread", "stats"}),
     "C03": dict(module="Deltio.Props.C03", conc=[("mix", 120, 5000), ("cancel", 80, 3000), ("abandonpull", 60, 2000)], trace_kinds={"pull", "expire", "modify", "ack"}, seq=[("data", 250, 10000, 50), ("batches", 40, 1500, 40)], pure=["tracker"],
                 relevant={"pull", "sread"}),
-    "C04": dict(module="Deltio.Props.C04", conc=[("mix", 60, 3000), ("abandonpull", 100, 3000)], trace_kinds={"pull", "expire"}, seq=[("deadlines", 300, 12000, 50)], pure=["rounds", "tracker"],
+    "C04": dict(module="Deltio.Props.C04", conc=[("mix", 60, 3000), ("abandonpull", 100, 3000)], trace_kinds={"pull", "expire"}, seq=[("deadlines", 300, 12000, 50), ("general", 200, 6000, 40)], pure=["rounds", "tracker"],
                 relevant={"pull", "sread", "stats", "adv", "clock", "csub"}),
     "C05": dict(module="Deltio.Props.C05", conc=[("mix", 60, 3000)], trace_kinds={"modify"}, seq=[("deadlines", 300, 12000, 50)], pure=["ext", "tracker"],
                 relevant={"mod", "ssend", "pull", "sread", "stats"}),
@@ -30,7 +30,7 @@ PROPS = {
                 relevant={"dsub", "dtopic", "ltsubs", "wtsubs", "gsub", "lsubs", "wsubs", "stats", "ctopic", "csub", "pub", "pull"}),
     "C13": dict(module="Deltio.Props.C13", trace_kinds={"attach", "remove"}, seq=[("namespace", 250, 10000, 50), ("listing", 150, 6000, 60)], pure=["tokens"],
                 relevant={"ltopics", "lsubs", "ltsubs", "wtopics", "wsubs", "wtsubs"}),
-    "C15": dict(module="Deltio.Props.C15", conc=[("mix", 60, 3000), ("wake", 60, 3000), ("abandonpull", 80, 2000)], trace_kinds={"pull", "pull.count"}, seq=[("batches", 80, 3000, 40), ("data", 100, 4000, 50), ("general", 100, 4000, 40), ("bigbacklog", 2, 12, 0)], pure=[],
+    "C15": dict(module="Deltio.Props.C15", conc=[("mix", 60, 3000), ("wake", 60, 3000), ("abandonpull", 80, 2000), ("pulllimit", 60, 2000)], trace_kinds={"pull", "pull.count"}, seq=[("batches", 80, 3000, 40), ("data", 100, 4000, 50), ("general", 100, 4000, 40), ("bigbacklog", 2, 12, 0)], pure=[],
                 relevant={"pull", "sread", "sopen"}),
     "C17": dict(module="Deltio.Props.C17", trace_kinds=set(), seq=[("malformed", 300, 12000, 50)], pure=["names", "tokens", "ext", "ackids"],
                 relevant=ALL_SEQ_OPS),
@@ -646,15 +646,17 @@ def main_check(prop, tier):
         return 1
     gate = prover.gate(chk.cfg["module"], tier == "thorough", log)
     log("proof gate: %d/%d theorems, ok=%s %s" % (gate["discharged"], gate["obligations"], gate["ok"], gate["failures"]))
-    rng = Rng(seed)
+    # every stream derives its cases from (seed, stream name) alone: a stream's cases do not depend on which
+    # other streams the property runs or on how much randomness they consumed, and the same profile gives the
+    # same cases to every property that uses it
     for name in chk.cfg["pure"]:
-        chk.pure_stream(name, rng)
+        chk.pure_stream(name, Rng(seed))
     for (profile, q, t, ml) in chk.cfg["seq"]:
-        chk.seq_stream(profile, q if tier == "quick" else t, ml, rng)
+        chk.seq_stream(profile, q if tier == "quick" else t, ml, Rng(seed))
     for (profile, q, t) in chk.cfg.get("conc", []):
-        chk.conc_stream(profile, q if tier == "quick" else t, rng)
+        chk.conc_stream(profile, q if tier == "quick" else t, Rng(seed))
     if chk.cfg.get("push"):
-        chk.push_stream(rng)
+        chk.push_stream(Rng(seed))
     for extra in chk.cfg.get("extra", []):
-        extra(chk, rng)
+        extra(chk, Rng(seed))
     return chk.finish(gate)
